@@ -703,3 +703,134 @@ Proof.
       intros Hin. destruct Hsub as (Hl1 & Hl2 & _). destruct (In_nth _ _ 0 Hin) as [v [Hv' E]].
       rewrite Hl1 in Hv'. specialize (Hl2 v Hv'). unfold akeys in Hl2. rewrite map_length in Hl2. lia.
 Qed.
+
+(** * Sorting the heights *)
+Lemma qltb_lt a b : qltb a b = true <-> (a < b)%Q.
+Proof.
+  unfold qltb. rewrite negb_true_iff. split.
+  - intros H. apply Qnot_le_lt. intros Hc. apply Qle_bool_iff in Hc. congruence.
+  - intros H. destruct (Qle_bool b a) eqn:E; [|reflexivity]. apply Qle_bool_iff in E.
+    exfalso. exact (Qlt_not_le _ _ H E).
+Qed.
+
+Lemma insq_perm x l : Permutation (insq x l) (x :: l).
+Proof.
+  induction l as [|y t IH]; simpl; [reflexivity|]. destruct (Qle_bool x y); [reflexivity|].
+  rewrite IH. apply perm_swap.
+Qed.
+
+Lemma sortq_perm l : Permutation (sortq l) l.
+Proof. induction l as [|x l IH]; simpl; [reflexivity|]. rewrite insq_perm. now constructor. Qed.
+
+Lemma insq_sorted x l : StronglySorted Qle l -> StronglySorted Qle (insq x l).
+Proof.
+  induction l as [|y t IH]; simpl; intros H.
+  - constructor; constructor.
+  - inversion H as [|? ? Hs Hall]; subst. destruct (Qle_bool x y) eqn:E.
+    + apply Qle_bool_iff in E. constructor; [exact H|]. constructor; [exact E|].
+      rewrite Forall_forall in *. intros z Hz. eapply Qle_trans; [exact E | now apply Hall].
+    + constructor; [now apply IH|].
+      assert (Hyx : (y <= x)%Q).
+      { apply Qlt_le_weak, Qnot_le_lt. intros Hc. apply Qle_bool_iff in Hc. congruence. }
+      rewrite Forall_forall in *. intros z Hz. apply (Permutation_in _ (insq_perm x t)) in Hz.
+      destruct Hz as [<-|Hz]; [exact Hyx | now apply Hall].
+Qed.
+
+Lemma sortq_sorted l : StronglySorted Qle (sortq l).
+Proof. induction l as [|x l IH]; simpl; [constructor | now apply insq_sorted]. Qed.
+
+Definition count_lt (c : Q) (l : list Q) : nat := length (filter (fun x => qltb x c) l).
+
+Lemma filter_perm {A} (f : A -> bool) l l' : Permutation l l' -> Permutation (filter f l) (filter f l').
+Proof.
+  induction 1; simpl.
+  - reflexivity.
+  - destruct (f x); [now constructor | assumption].
+  - destruct (f x), (f y); try reflexivity. apply perm_swap.
+  - etransitivity; eassumption.
+Qed.
+
+Lemma count_lt_perm c l l' : Permutation l l' -> count_lt c l = count_lt c l'.
+Proof. intros H. unfold count_lt. apply Permutation_length. now apply filter_perm. Qed.
+
+Lemma count_lt_none c l : Forall (Qle c) l -> count_lt c l = 0.
+Proof.
+  unfold count_lt. induction l as [|x l IH]; simpl; intros H; [reflexivity|].
+  inversion H as [|? ? Hx Hl]; subst. destruct (qltb x c) eqn:E.
+  - apply qltb_lt in E. exfalso. exact (Qlt_not_le _ _ E Hx).
+  - now apply IH.
+Qed.
+
+Lemma sorted_count_le s : StronglySorted Qle s -> forall m c, nth_error s m = Some c -> count_lt c s <= m.
+Proof.
+  induction 1 as [|a s Hs IH Hall]; intros m c Hm; [destruct m; discriminate|].
+  destruct m as [|m]; simpl in Hm.
+  - inversion Hm; subst c. unfold count_lt. simpl.
+    replace (qltb a a) with false by (symmetry; unfold qltb; apply negb_false_iff, Qle_bool_iff, Qle_refl).
+    fold (count_lt a s). now rewrite count_lt_none.
+  - specialize (IH m c Hm). unfold count_lt in *. simpl. destruct (qltb a c); simpl; lia.
+Qed.
+
+Lemma InA_Qeq_In x l : InA Qeq x l <-> exists y, (x == y)%Q /\ In y l.
+Proof. apply InA_alt. Qed.
+
+Lemma sorted_count_eq s : StronglySorted Qle s -> NoDupA Qeq s ->
+  forall m c, nth_error s m = Some c -> count_lt c s = m.
+Proof.
+  induction 1 as [|a s Hs IH Hall]; intros Hnd m c Hm; [destruct m; discriminate|].
+  inversion Hnd as [|? ? Hn Hnd']; subst.
+  destruct m as [|m]; simpl in Hm.
+  - inversion Hm; subst c. unfold count_lt. simpl.
+    replace (qltb a a) with false by (symmetry; unfold qltb; apply negb_false_iff, Qle_bool_iff, Qle_refl).
+    fold (count_lt a s). now rewrite count_lt_none.
+  - specialize (IH Hnd' m c Hm). unfold count_lt in *. simpl.
+    assert (Hin : In c s) by (eapply nth_error_In; eassumption).
+    assert (Hlt : (a < c)%Q).
+    { rewrite Forall_forall in Hall. specialize (Hall c Hin). apply Qle_lt_or_eq in Hall.
+      destruct Hall as [Hl|He]; [exact Hl|]. exfalso. apply Hn. apply InA_Qeq_In. now exists c. }
+    apply qltb_lt in Hlt. rewrite Hlt. simpl. now rewrite IH.
+Qed.
+
+Lemma NoDupA_Qeq_perm l l' : Permutation l l' -> NoDupA Qeq l -> NoDupA Qeq l'.
+Proof.
+  assert (HinA : forall l l' x, Permutation l l' -> InA Qeq x l -> InA Qeq x l').
+  { intros l0 l0' x P H. apply InA_Qeq_In in H. destruct H as [y [E Hy]]. apply InA_Qeq_In.
+    exists y. split; [exact E|]. now apply (Permutation_in _ P). }
+  induction 1; intros H.
+  - constructor.
+  - inversion H; subst. constructor; [|now apply IHPermutation].
+    intros Hc. apply (HinA _ _ _ (Permutation_sym H0)) in Hc. tauto.
+  - inversion H as [|? ? Hn1 H1]; subst. inversion H1 as [|? ? Hn2 H2]; subst.
+    constructor; [|constructor; [|assumption]].
+    + intros Hc. inversion Hc; subst; [apply Hn1; left; now symmetry | tauto].
+    + intros Hc. apply Hn1. now right.
+  - auto.
+Qed.
+
+Lemma distinct_heights_NoDupA D : distinct_heights D -> NoDupA Qeq (heights D).
+Proof.
+  induction D as [|r D IH]; intros H; simpl; [constructor|]. constructor.
+  - intros Hc. apply InA_Qeq_In in Hc. destruct Hc as [y [E Hy]]. unfold heights in Hy.
+    apply in_map_iff in Hy. destruct Hy as [r2 [<- Hr2]]. destruct (In_nth_error _ _ Hr2) as [t2 Ht2].
+    apply (H 0 (S t2) r r2); simpl; auto.
+  - apply IH. intros t1 t2 r1 r2 H1 H2 Hne. apply (H (S t1) (S t2) r1 r2); simpl; auto.
+Qed.
+
+Lemma below_count cut D : below cut D = count_lt cut (heights D).
+Proof.
+  unfold below, count_lt, heights. induction D as [|r D IH]; simpl; [reflexivity|].
+  destruct (qltb (r_height r) cut); simpl; now rewrite IH.
+Qed.
+
+Lemma below_sorted_le D m c : nth_error (sortq (heights D)) m = Some c -> below c D <= m.
+Proof.
+  intros H. rewrite below_count, <- (count_lt_perm c _ _ (sortq_perm (heights D))).
+  exact (sorted_count_le _ (sortq_sorted _) m c H).
+Qed.
+
+Lemma below_sorted_eq D m c : distinct_heights D -> nth_error (sortq (heights D)) m = Some c -> below c D = m.
+Proof.
+  intros Hd H. rewrite below_count, <- (count_lt_perm c _ _ (sortq_perm (heights D))).
+  apply (sorted_count_eq _ (sortq_sorted _)); [|exact H].
+  apply (NoDupA_Qeq_perm (heights D)); [symmetry; apply sortq_perm | now apply distinct_heights_NoDupA].
+Qed.
